@@ -221,6 +221,11 @@ def check(ctx):
     sub = type(ctx)(ctx.pid, ctx.an, ctx.tier)
     c07.check(sub)
     ctx.obligations.extend(o for o in sub.obligations if o.rule.split(".", 1)[1].startswith(("typestate.no-unvalidated-retained", "reject.")))
+    # "a file written by a successful save loads back": what is written for a secret is encrypted with the key in force now
+    from . import c03
+    sub3 = type(ctx)(ctx.pid, ctx.an, ctx.tier)
+    c03.check(sub3)
+    ctx.obligations.extend(o for o in sub3.obligations if o.rule.split(".", 1)[1].startswith("encrypt.this-invocation"))
     from .paths import check_save_load_path
     check_save_load_path(ctx)
     from .xmlfmt import check_xml_output_validated
